@@ -46,6 +46,11 @@ pub fn run_one(
                 seed, tier == Tier::Thorough, &mask, &scratch
             )
         }
+        if property == "C19" {
+            return crate::engg::run(
+                seed, tier == Tier::Thorough, &mask, &scratch
+            )
+        }
         if property == "C32" {
             return crate::engf::run_case(
                 seed as usize, tier == Tier::Thorough, &scratch
